@@ -437,7 +437,13 @@ func GenExtras(t *rapid.T, p SelPath, label string) SelPath {
 			Partial:    rapid.Bool().Draw(t, label+"_up"),
 			Type:       uint8(rapid.SampledFrom([]int{11, 32, 99, 128, 255}).Draw(t, label+"_utype")),
 		}
-		switch rapid.IntRange(0, 3).Draw(t, label+"_uval") {
+		switch rapid.IntRange(0, 4).Draw(t, label+"_uval") {
+		case 4: // around the extended-length boundary and up to the size of a whole message
+			n := rapid.SampledFrom([]int{255, 256, 257, 512, 4000}).Draw(t, label+"_ulen")
+			u.Value = make([]byte, n)
+			for j := range u.Value {
+				u.Value[j] = byte(j*7 + n)
+			}
 		case 0:
 			u.ValueNil = true
 		case 1:
